@@ -1454,7 +1454,9 @@ class Exec:
         if any(isinstance(a, ast.Starred) for a in e.args) or any(k.arg is None for k in e.keywords):
             hook = getattr(self.spec, "star_call", None)
             if hook is not None:
-                return hook(self, fr, e)
+                r = hook(self, fr, e)
+                if r is not NotImplemented:
+                    return r
             raise Unsupported("star-args call " + ast.unparse(e)[:60])
         kwargs = {k.arg: self.eval(k.value, fr) for k in e.keywords}
         if isinstance(e.func, ast.Name) and e.func.id == "super" and not e.args:
